@@ -171,6 +171,24 @@ struct IdentWorld : World {
 				break;
 			}
 			case OP_NODE: {
+				if (op.c & 1) {
+					// the C++ twin: node::create(name) picks plain or extended node storage by the name length; delete releases name and node
+					size_t L = pick_len(op, t) % 400; if (L > pool.size()) L = pool.size();
+					Block nb(L + 1, 0); if (L) memcpy(nb.p, pool.data(), L); nb.p[L] = 0; for (size_t k = 0; k < L; ++k) if (!nb.p[k]) nb.p[k] = 'q';
+					node *n; { Sut su(failn); n = node::create((const char *) nb.p, (op.c & 2) ? -1 : (int) L); fired = g.fired; }
+					if (!n) { if (!fired) fail("refused-valid", "node::create with a name of %zu bytes failed", L); break; }
+					const char *got; { Sut su; got = mpt_node_ident(n); }
+					if (!fired && L && (!got || memcmp(got, nb.p, L) || got[L])) fail("wrong-content", "C++ node created with a name of %zu bytes reads it back differently", L);
+					size_t L2 = (size_t) (op.c / 7) % 400; if (L2 > pool.size()) L2 = pool.size();
+					Block n2(L2 + 1, 0); if (L2) memcpy(n2.p, pool.data() + (pool.size() - L2), L2); n2.p[L2] = 0; for (size_t k = 0; k < L2; ++k) if (!n2.p[k]) n2.p[k] = 'r';
+					bool ok; { Sut su; ok = n->ident.set_name((const char *) n2.p, (int) L2); }
+					if (!ok) fail("refused-valid", "renaming a C++ node to %zu bytes refused", L2);
+					{ Sut su; got = mpt_node_ident(n); }
+					if (L2 && (!got || memcmp(got, n2.p, L2) || got[L2])) fail("wrong-content", "C++ node renamed to %zu bytes reads back differently (created for %zu)", L2, L);
+					{ Sut su; delete n; }
+					log.ev("NODE(C++) names %zu,%zu%s", L, L2, fired ? " allocfail" : ""); st.hit("probe:cxx_node_create");
+					outcome = 1; break;
+				}
 				// node name storage: a node sized for a name of some length, named, renamed across its inline limit, destroyed
 				size_t want = (size_t) op.c % 300, len1 = pick_len(op, t) % 400, len2 = (size_t) (op.c / 7) % 400;
 				if (len1 > pool.size()) len1 = pool.size(); if (len2 > pool.size()) len2 = pool.size();
